@@ -208,14 +208,27 @@ CLAIMS = {
         "technique": "static analysis: provenance tags through abstract interpretation of the drivers, read-set of Url views, def-use queries",
     },
     "C16": {
-        "text": ("Deliberately narrow. Decides only the storage discipline behind the multimap: every access to the storage dict uses a "
-                 "lower-cased key; every list stored is built in that statement, copies build per-key fresh lists and no method returns a "
-                 "stored list (so copies and unions are independent of their sources); copy/|/reversed | return a newly built instance and "
-                 "|= returns self; bulk mutators insert through add() while item assignment replaces with [name, value]. "
-                 "Declined (most of the statement): equivalence of arbitrary operation sequences with a reference multimap - ordering, "
-                 "casing drift, combine semantics, equality - which needs model-based testing, a different technique."),
-        "note": _TRUST + "Only necessary structural conditions of C16 are decided; a behavioural change that keeps this discipline is out of reach.",
-        "technique": "static analysis: def-use / escape queries over the AST of HTTPHeaderDict",
+        "text": ("Decides, method by method, that HTTPHeaderDict's effect table equals the reference multimap's - for every decision row of "
+                 "every method, over a symbolic storage: item assignment stores exactly [name, value] under the lower-cased name (bytes names "
+                 "decoded, str names untouched); lookup returns the values joined by ', ' and changes nothing; deletion removes exactly the "
+                 "entry; membership is the lower-cased storage test for str and False otherwise; add() stores a fresh [name, value] for a new "
+                 "name, appends after the other values for an existing one (first-seen spelling kept) or - combine=True - joins to the LAST "
+                 "value, and combine defaults to False; extend() inserts every pair of each accepted source kind (header dict line by line, "
+                 "mapping items, iterable of pairs, keys()+[] duck typing) and then the keywords through add() without combine, in source "
+                 "order, refuses a second positional source and never reads a source that was not given; iteration yields the first-seen "
+                 "spelling per entry in storage order, iteritems one (spelling, value) per value line, itermerged the joined values, getlist a "
+                 "fresh slice or []/default; the item view iterates, measures and tests membership line by line; _copy_from stores a fresh "
+                 "[name, *values] per name, copy() is a new instance filled from self, | / reflected | / |= are copy-then-extend, "
+                 "new(other)-then-extend(self) and in-place extend, with NotImplemented for unreadable operands; discard swallows only "
+                 "KeyError; pop/popitem/update/clear/get stay the MutableMapping mix-ins built on these. Also the storage discipline: "
+                 "lower-cased keys at every storage access, no stored list shared between instances or handed out. Since each method is "
+                 "specified in terms of the other methods' specifications, equivalence with the reference multimap over operation "
+                 "SEQUENCES follows by induction on call depth and sequence length (stated, not checked). "
+                 "Declined: __eq__'s value-level comparison of the two merged views, __repr__, and the induction step itself."),
+        "note": _TRUST + "Terms are Herbrand terms over known pure operations (str/list methods, slicing, join, concatenation); a method body using an operation outside that "
+                "vocabulary is reported as ANALYSIS-ERROR (exit 2), never as a violation. The storage invariant `every entry is [spelling, value, ...]` (len >= 2) is "
+                "established by the store rules and assumed when an assert consults it.",
+        "technique": "static analysis: effect-table extraction by abstract interpretation with Herbrand terms (symbolic value numbering, no solver) over a symbolic storage, compared row by row with the reference multimap; plus def-use / escape queries",
     },
     "C17": {
         "text": ("Decides the lock and disposal discipline of the LRU container and of get-or-create, on every path: each access to the "
@@ -249,9 +262,11 @@ CLAIMS = {
                  "timeout (last computation) follows the request, a zero budget raises ReadTimeoutError without waiting and the read "
                  "timeout is applied before getresponse(); request()/getresponse() call settimeout(self.timeout) first; the pool's "
                  "timeout is used only for the default sentinel; socket.timeout and EAGAIN/EWOULDBLOCK map to ReadTimeoutError. "
+                 "All of it is decided on effect rows (decisions on symbolic atoms + returned term / ordered events), so temporaries, "
+                 "reordered independent tests, `a if a < b else b` in place of min(), merged raises and helper extraction do not matter. "
                  "Declined: arithmetic over elapsed time."),
         "note": _TRUST + "F14 (tunnel set-up time through a CONNECT proxy is not deducted from total) is a known finding confirmed against the real code.",
-        "technique": "static analysis: decision-table extraction on _validate_timeout, min/max shape matching, event-order typestate on _make_request",
+        "technique": "static analysis: effect-row / decision-table extraction with Herbrand terms (min/max normal form, comparisons as row constraints) on the Timeout helpers, event-order typestate on _make_request / request / getresponse with helper inlining",
     },
     "C20": {
         "text": ("Decides the structural soundness of the multipart encoder for all field contents: field name and filename reach a "
